@@ -78,4 +78,8 @@ CLAIMED["C19"] = {"text": "Sources, binaries and the three build-dependency fiel
                   "design_ref": "3/C19", "note": _TB + " A source build-depending on its own binary (and in no longer cycle) is unspecified.",
                   "technique": "TLC-enumerated dependency graphs rendered to .dsc by the TLA+ spec; outcomes validated by TLC with reachability-based cycle oracle"}
 
+CLAIMED["C09"] = {"text": "Marshal/Unmarshal are specified as a field-descriptor algebra in TLA+ (kinds, renamed / required / skipped / multiline flags, list delimiters and strip sets, Paragraph.Update for the embedded raw paragraph). The harness's probe struct types are reflected and TLC checks them against the specification's descriptor table; TLC enumerates every value of the probe types over small per-field domains and every interleaving of known and unknown fields, and judges the marshalled paragraph (fields, order, omission, presence), the written bytes (through the Deb822 reference reader), the decoded value, required-field errors and recovered panics.",
+                  "design_ref": "3/C09", "note": _TB,
+                  "technique": "TLA+ descriptor algebra; TLC-enumerated struct values replayed through Marshal/Unmarshal and validated by TLC"}
+
 NOT_APPLICABLE = {}
